@@ -4,7 +4,7 @@ of the properties its file / region belongs to (through harness/seedcheck.py, sc
 Not part of any registered check; used to look for gaps.   mutate.py gen <outdir> ; mutate.py run <outdir> <log>"""
 import os, re, subprocess, sys, random
 
-REPO = '/repo'
+REPO = '/tmp/mutgen-repo'      # mutants are made in a scratch worktree, never in /repo itself
 # (file, first line, last line, properties whose checks should notice)
 REGIONS = [
     ('include/trompeloeil/sequence.hpp', 88, 420, ['C05', 'C06', 'C02']),
@@ -34,14 +34,41 @@ DELETABLE = re.compile(r'^\s*(\w[\w>\-\.:\*\(\)]*\((?:[^;{}]*)\);|\w[\w>\-\.]*\s
 
 def gen(outdir):
     os.makedirs(outdir, exist_ok=True)
+    subprocess.run(['git', '-C', '/repo', 'worktree', 'remove', '--force', REPO], stdout=subprocess.DEVNULL, stderr=subprocess.DEVNULL)
+    subprocess.check_call(['git', '-C', '/repo', 'worktree', 'add', '--detach', REPO, 'HEAD'], stdout=subprocess.DEVNULL, stderr=subprocess.DEVNULL)
+    try:
+        _gen(outdir)
+    finally:
+        subprocess.run(['git', '-C', '/repo', 'worktree', 'remove', '--force', REPO], stdout=subprocess.DEVNULL, stderr=subprocess.DEVNULL)
+
+REGION_BASE = '3d53fcd'      # the line numbers of REGIONS refer to this commit; they are mapped to the current HEAD
+
+def map_lines(f):
+    import difflib
+    old = subprocess.run(['git', '-C', '/repo', 'show', '%s:%s' % (REGION_BASE, f)], stdout=subprocess.PIPE, text=True).stdout.split('\n')
+    new = open(os.path.join(REPO, f)).read().split('\n')
+    m = {}
+    for tag, i1, i2, j1, j2 in difflib.SequenceMatcher(None, old, new, autojunk=False).get_opcodes():
+        if tag == 'equal':
+            for k in range(i2 - i1):
+                m[i1 + k + 1] = j1 + k + 1
+    def f_(ln):
+        while ln not in m and ln > 1:
+            ln -= 1
+        return m.get(ln, ln)
+    return f_
+
+def _gen(outdir):
     n = 0
     index = []
     for (f, a, b, props) in REGIONS:
         path = os.path.join(REPO, f)
         lines = open(path).read().split('\n')
+        mp = map_lines(f)
+        a, b = mp(a), mp(b)
         for ln in range(a - 1, min(b, len(lines))):
             L = lines[ln]
-            if 'static_assert' in L or L.strip().startswith(('//', '#', '*', 'template', 'typename', 'using ')) or 'TROMPELOEIL_VERIF_EVENT' in L:
+            if 'TROMPELOEIL_VERIF' in L or 'static_assert' in L or L.strip().startswith(('//', '#', '*', 'template', 'typename', 'using ')) or 'TROMPELOEIL_VERIF_EVENT' in L:
                 continue
             muts = []
             for (x, y) in SWAPS:
@@ -71,7 +98,7 @@ def run(outdir, log, sample=None, seed=1):
     with open(log, 'a') as g:
         for l in idx:
             name = l.split()[0]
-            props = l.split()[2].split(',')
+            props = l.split()[2].split(',')[:2]
             p = subprocess.run([sys.executable, os.path.join(os.path.dirname(os.path.abspath(__file__)), 'seedcheck.py'),
                                 os.path.join(outdir, name, 'patch.diff')] + props, stdout=subprocess.PIPE, stderr=subprocess.STDOUT, text=True)
             verdicts = [x.split(': ')[1].split()[0] for x in p.stdout.splitlines() if re.match(r'^m\d+ C\d+: ', x)]
